@@ -11,6 +11,8 @@
 
 pub mod panics;
 pub mod props;
+#[cfg(feature = "quinn")]
+pub mod quinnrig;
 pub mod refimpl;
 pub mod report;
 pub mod sim;
